@@ -25,7 +25,10 @@ CONSTANTS
   Kind,     \* "cached" | "tsc"
   Sizes,    \* terminal sizes (tsc)
   MaxResize,
-  Variant   \* "code" | "outside" (body executed outside the lock)
+  MaxFail,  \* how many body executions may raise
+  KwClass,  \* <<c_1, ...>>: arguments with equal c differ only in the VALUES of their keyword arguments
+  Variant   \* "code" | "outside" (body outside the lock) | "kwnames" (key ignores keyword values)
+            \* | "sizefirst" (tsc stores the new size before the body has returned)
 
 Threads == 1..NT
 ArgsUsed == (UNION {{Prog[t][i].a : i \in 1..Len(Prog[t])} : t \in Threads}) \ {0}
@@ -38,10 +41,15 @@ VARIABLES
   nres,     \* resizes so far
   nbody,    \* body executions so far (the body returns its ordinal: values are distinct)
   decided,  \* decided[key]: decisions to run the body for key since the last invalidation / size change
+  nfail,    \* body executions that raised
+  born,     \* born[v]: the key (argument tuple / terminal size) the body execution with ordinal v ran for
   out
 
-vars == <<lock, cache, th, ts, nres, nbody, decided, out>>
-View == <<lock, cache, th, ts, nres, nbody, decided>>
+vars == <<lock, cache, th, ts, nres, nbody, decided, nfail, born, out>>
+View == <<lock, cache, th, ts, nres, nbody, decided, nfail, born>>
+Raised == 0 - 1
+\* the slot an argument tuple is stored under
+KeyOf(a) == IF Variant = "kwnames" THEN (CHOOSE b \in 1..Len(KwClass) : KwClass[b] = KwClass[a]) ELSE a
 
 Item(t) == Prog[t][th[t].ip]
 Live(t) == th[t].ip <= Len(Prog[t])
@@ -59,6 +67,7 @@ Init ==
   /\ ts \in Sizes
   /\ nres = 0 /\ nbody = 0
   /\ decided = [k \in Keys |-> 0]
+  /\ nfail = 0 /\ born = <<>>
   /\ out = [t |-> 0, act |-> "init", res |-> 0]
 
 Hit(key) == IF Kind = "tsc" THEN cache # <<>> /\ cache[2] = key ELSE cache[key] # 0
@@ -69,7 +78,8 @@ Store(key, v) == IF Kind = "tsc" THEN <<v, key>> ELSE [cache EXCEPT ![key] = IF 
 DoAcq(t) ==
   /\ At(t, "acq") /\ Free(t)
   /\ LET it == Item(t)
-         key == IF Kind = "tsc" THEN ts ELSE it.a IN
+         key == IF Kind = "tsc" THEN ts ELSE (IF it.k = "inv" THEN 0 ELSE KeyOf(it.a))
+         want == IF Kind = "tsc" THEN ts ELSE it.a IN  \* what the caller asks for
      IF it.k = "inv"
        THEN /\ cache' = EmptyCache
             /\ decided' = [k \in Keys |-> 0]
@@ -77,33 +87,46 @@ DoAcq(t) ==
             /\ th' = [th EXCEPT ![t].pc = "rel", ![t].res = 0]
        ELSE IF Hit(key)
          THEN /\ lock' = Take(t)
-              /\ th' = [th EXCEPT ![t].pc = "rel", ![t].res = Value(key), ![t].key = key]
+              /\ th' = [th EXCEPT ![t].pc = "rel", ![t].res = Value(key), ![t].key = want]
               /\ UNCHANGED <<cache, decided>>
          ELSE /\ decided' = [decided EXCEPT ![key] = @ + 1]
               /\ lock' = IF Variant = "outside" THEN lock ELSE Take(t)
-              /\ th' = [th EXCEPT ![t].pc = "body", ![t].key = key]
-              /\ UNCHANGED cache
+              /\ th' = [th EXCEPT ![t].pc = "body", ![t].key = want]
+              \* seeded regression "sizefirst": the new size is stored before the body has run
+              /\ cache' = IF Variant = "sizefirst" /\ Kind = "tsc" THEN <<(IF cache = <<>> THEN 0 ELSE cache[1]), key>> ELSE cache
   /\ out' = [t |-> t, act |-> "Acq", res |-> 0]
-  /\ UNCHANGED <<ts, nres, nbody>>
+  /\ UNCHANGED <<ts, nres, nbody, nfail, born>>
 
 \* the wrapped function runs; its value goes into the cache (setdefault)
 DoBody(t) ==
   /\ At(t, "body")
   /\ nbody' = nbody + 1
-  /\ cache' = Store(th[t].key, nbody + 1)
-  /\ LET v == IF Kind = "tsc" THEN nbody + 1 ELSE (IF cache[th[t].key] = 0 THEN nbody + 1 ELSE cache[th[t].key]) IN
-       th' = [th EXCEPT ![t].pc = IF Variant = "outside" THEN "done1" ELSE "rel", ![t].res = v]
+  /\ born' = Append(born, th[t].key)
+  /\ LET slot == IF Kind = "tsc" THEN th[t].key ELSE KeyOf(th[t].key)
+         v == IF Kind = "tsc" THEN nbody + 1 ELSE (IF cache[slot] = 0 THEN nbody + 1 ELSE cache[slot]) IN
+       /\ cache' = Store(slot, nbody + 1)
+       /\ th' = [th EXCEPT ![t].pc = IF Variant = "outside" THEN "done1" ELSE "rel", ![t].res = v]
   /\ out' = [t |-> t, act |-> "Body", res |-> nbody + 1]
-  /\ UNCHANGED <<lock, ts, nres, decided>>
+  /\ UNCHANGED <<lock, ts, nres, decided, nfail>>
+
+\* the wrapped function raises: nothing may be memoized, the next call has to compute again
+DoBodyFail(t) ==
+  /\ At(t, "body") /\ nfail < MaxFail
+  /\ nfail' = nfail + 1
+  /\ LET slot == IF Kind = "tsc" THEN th[t].key ELSE KeyOf(th[t].key) IN
+       decided' = [decided EXCEPT ![slot] = @ - 1]
+  /\ th' = [th EXCEPT ![t].pc = IF Variant = "outside" THEN "done1" ELSE "rel", ![t].res = Raised]
+  /\ out' = [t |-> t, act |-> "BodyFail", res |-> Raised]
+  /\ UNCHANGED <<lock, cache, ts, nres, nbody, born>>
 
 \* release and return
 DoRel(t) ==
   /\ At(t, "rel") \/ At(t, "done1")
   /\ lock' = IF th[t].pc = "done1" THEN lock ELSE Drop
-  /\ LET r == IF Kind = "tsc" /\ Item(t).k = "call" /\ cache # <<>> THEN cache[1] ELSE th[t].res IN
+  /\ LET r == IF Kind = "tsc" /\ Item(t).k = "call" /\ cache # <<>> /\ th[t].res # Raised THEN cache[1] ELSE th[t].res IN
        /\ th' = [th EXCEPT ![t] = [ip |-> th[t].ip + 1, pc |-> "acq", res |-> 0, key |-> 0]]
        /\ out' = [t |-> t, act |-> "Rel", res |-> r]
-  /\ UNCHANGED <<cache, ts, nres, nbody, decided>>
+  /\ UNCHANGED <<cache, ts, nres, nbody, decided, nfail, born>>
 
 \* the terminal is resized (tsc)
 DoResize ==
@@ -112,18 +135,24 @@ DoResize ==
   /\ nres' = nres + 1
   /\ decided' = [k \in Keys |-> 0]
   /\ out' = [t |-> 0, act |-> "Resize", res |-> ts']
-  /\ UNCHANGED <<lock, cache, th, nbody>>
+  /\ UNCHANGED <<lock, cache, th, nbody, nfail, born>>
 
 Acq == \E t \in Threads : DoAcq(t)
 Body == \E t \in Threads : DoBody(t)
+BodyFail == \E t \in Threads : DoBodyFail(t)
 Rel == \E t \in Threads : DoRel(t)
 Resize == DoResize
-Next == Acq \/ Body \/ Rel \/ Resize
+Next == Acq \/ Body \/ BodyFail \/ Rel \/ Resize
 Spec == Init /\ [][Next]_vars
 
 -----------------------------------------------------------------------------
 \* at most one decision to run the body per key between invalidations (size changes)
 BodyOnce == \A k \in Keys : decided[k] <= 1
+
+\* a returned value was computed by a body execution for the very argument tuple / terminal size the
+\* caller asked for (and a raising body leaves nothing behind)
+ValueFresh ==
+  \A t \in Threads : (At(t, "rel") \/ At(t, "done1")) /\ th[t].res > 0 => born[th[t].res] = th[t].key
 
 \* at most one thread is inside the wrapped function
 BodyExclusive == Cardinality({t \in Threads : At(t, "body")}) <= 1
